@@ -1,0 +1,25 @@
+//go:build verif
+
+package sharder
+
+// Verification hooks for property C17 (add-only, no behaviour): expose the peer list and the
+// partition hash list a DeterministicSharder currently holds, and the seed constant.
+
+const VerifC17PeerSeed uint64 = peerSeed
+
+type VerifC17Hash struct {
+	Uhash uint64
+	Index int
+}
+
+func VerifC17State(d *DeterministicSharder) (peers []string, hashes []VerifC17Hash) {
+	d.peerLock.RLock()
+	defer d.peerLock.RUnlock()
+	for _, p := range d.peers {
+		peers = append(peers, string(p))
+	}
+	for _, h := range d.hashes {
+		hashes = append(hashes, VerifC17Hash{Uhash: h.uhash, Index: h.shardIndex})
+	}
+	return peers, hashes
+}
